@@ -659,7 +659,13 @@ def find(obj, lookup_list, rrel_tree, obj_cls=None, split_string=".", use_proxy=
     if type(res) is tuple:
         # full path is in res[1]
         if use_proxy:
-            return ReferenceProxy(res[1])
+            path = res[1]
+            if len(path) == 0 or path[-1] is not res[0]:
+                # last step was not a name step ('~attr', '..', 'parent(T)'):
+                # the proxy stands for the found object, not for the last
+                # named object on the way
+                path = path + [res[0]]
+            return ReferenceProxy(path)
         else:
             return res[0]
     else:
